@@ -201,7 +201,9 @@ class Ctx:
 
     def log(self, i: int, name: str, outcome: str, dig: str) -> None:
         self.events.append((i, name, outcome, dig))
-        self.hasher.update(f"{i}|{name}|{outcome}|{dig}|{self.vtime:.6f}\n".encode())
+        # (the virtual clock is not hashed: how often the code reads it depends on one-time lazy initialisations of the
+        #  process -- gmsh, memoised tables -- not on the run)
+        self.hasher.update(f"{i}|{name}|{outcome}|{dig}\n".encode())
         if self._last_op is not None:
             self.bigrams.add((self._last_op, name))
         self._last_op = name
